@@ -1,4 +1,4 @@
-import PpciVerif.Proofs.Opt.SSA
+import PpciVerif.Proofs.Opt.Typing
 /-!
 # Proofs.Opt.Subst — soundness of `Model.OptCheck.checkSubst`
 
@@ -144,16 +144,97 @@ theorem knownInt_sound {ctx : Ctx} {f : Func} {T : DomTab} (hf : SSAFacts f T) {
               simp only [evalCast, Except.ok.injEq] at hw; subst hw
               exact evalOpnd_loc hget
 
+theorem intBinop_add_zero {t : ITy} {va : Int} (h : Spec.IRArith.InRange t va) :
+    intBinop t .add va 0 = .ok (.int va) := by
+  simp only [intBinop, BinOp.arith?, Spec.IRArith.binop, Int.add_zero, Proofs.IRArith.wrap_of_inRange t va h]
+
+theorem intBinop_zero_add {t : ITy} {va : Int} (h : Spec.IRArith.InRange t va) :
+    intBinop t .add 0 va = .ok (.int va) := by
+  simp only [intBinop, BinOp.arith?, Spec.IRArith.binop, Int.zero_add, Proofs.IRArith.wrap_of_inRange t va h]
+
+theorem intBinop_mul_one {t : ITy} {va : Int} (h : Spec.IRArith.InRange t va) :
+    intBinop t .mul va 1 = .ok (.int va) := by
+  simp only [intBinop, BinOp.arith?, Spec.IRArith.binop, Int.mul_one, Proofs.IRArith.wrap_of_inRange t va h]
+
+/-- `x := a + 0` (etc.) is an exact copy of `a` when `a` is in range -/
+theorem copyOf_sound {ctx : Ctx} {f : Func} {T : DomTab} (hf : SSAFacts f T) {u : Pos} {env : Env}
+    (hinv : InvAt ctx f T u env) (hty : TyInv f env) {fuel : Nat} {o a : Operand}
+    (h : copyOf f T u fuel o = some a) : evalOpnd ctx env a = evalOpnd ctx env o := by
+  cases o with
+  | glob g => simp [copyOf] at h
+  | loc x =>
+    simp only [copyOf] at h
+    cases hp : defPos f x with
+    | none => simp [hp] at h
+    | some px =>
+      simp only [hp] at h
+      cases hs : sdomPt T px u with
+      | false => simp [hs] at h
+      | true =>
+        simp only [hs, ↓reduceIte] at h
+        obtain ⟨i, hi, hdx⟩ := defPos_spec hf hp
+        simp only [hi] at h
+        cases i <;> try (simp at h; done)
+        case binop d ty op a1 b1 =>
+          simp only [dstName, Instr.dst?, Option.map, Option.some.injEq] at hdx; subst hdx
+          cases ty <;> try (simp at h; done)
+          case int t =>
+            obtain ⟨xa, xb, v, hxa, hxb, hv, hget⟩ := (hinv px _ hi rfl hs).binop
+            rw [evalOpnd_loc hget]
+            cases op <;> try (simp at h; done)
+            case add =>
+              simp only at h
+              split at h
+              · rename_i hc
+                simp only [Bool.and_eq_true, decide_eq_true_eq] at hc
+                simp only [Option.some.injEq] at h; subst h
+                rw [knownInt_sound hf hinv _ _ _ hc.1] at hxb
+                simp only [Except.ok.injEq] at hxb; subst hxb
+                cases xa <;> simp only [evalBinop, reduceCtorEq] at hv
+                case int va =>
+                  rw [intBinop_add_zero (evalOpnd_intOK hty hxa t va hc.2 rfl)] at hv
+                  rw [hxa, hv]
+              · split at h
+                · rename_i hc
+                  simp only [Bool.and_eq_true, decide_eq_true_eq] at hc
+                  simp only [Option.some.injEq] at h; subst h
+                  rw [knownInt_sound hf hinv _ _ _ hc.1] at hxa
+                  simp only [Except.ok.injEq] at hxa; subst hxa
+                  cases xb <;> simp only [evalBinop, reduceCtorEq] at hv
+                  case int vb =>
+                    rw [intBinop_zero_add (evalOpnd_intOK hty hxb t vb hc.2 rfl)] at hv
+                    rw [hxb, hv]
+                · simp at h
+            case mul =>
+              simp only at h
+              split at h
+              · rename_i hc
+                simp only [Bool.and_eq_true, decide_eq_true_eq] at hc
+                simp only [Option.some.injEq] at h; subst h
+                rw [knownInt_sound hf hinv _ _ _ hc.1] at hxb
+                simp only [Except.ok.injEq] at hxb; subst hxb
+                cases xa <;> simp only [evalBinop, reduceCtorEq] at hv
+                case int va =>
+                  rw [intBinop_mul_one (evalOpnd_intOK hty hxa t va hc.2 rfl)] at hv
+                  rw [hxa, hv]
+              · simp at h
+
 /-- a justified replacement operand has the value of the operand it replaces -/
-theorem justB_sound {ctx : Ctx} {f : Func} {T : DomTab} (hf : SSAFacts f T) {u : Pos} {env : Env}
-    (hinv : InvAt ctx f T u env) :
-    ∀ (n : Nat) (o o' : Operand), justB f T u n o o' = true → evalOpnd ctx env o' = evalOpnd ctx env o
+theorem justB_sound {ctx : Ctx} {f : Func} {T : DomTab} (hf : SSAFacts f T) {ty : Bool} {u : Pos} {env : Env}
+    (hinv : InvAt ctx f T u env) (hty : ty = true → TyInv f env) :
+    ∀ (n : Nat) (o o' : Operand), justB f T ty u n o o' = true → evalOpnd ctx env o' = evalOpnd ctx env o
   | 0, o, o', h => by
     simp only [justB, beq_iff_eq] at h; rw [h]
   | n + 1, o, o', h => by
-    simp only [justB, Bool.or_eq_true, beq_iff_eq] at h
-    rcases h with (h | h) | h
+    simp only [justB, Bool.or_eq_true, beq_iff_eq, Bool.and_eq_true] at h
+    rcases h with ((h | h) | h) | h
     · rw [h]
+    · obtain ⟨hT, h⟩ := h
+      cases hc : copyOf f T u (n + 1) o with
+      | none => simp [hc] at h
+      | some a =>
+        simp only [hc] at h
+        rw [justB_sound hf hinv hty n a o' h, copyOf_sound hf hinv (hty hT) hc]
     · cases h1 : knownInt f T u (n + 1) o with
       | none => simp [h1] at h
       | some v =>
@@ -194,8 +275,8 @@ theorem justB_sound {ctx : Ctx} {f : Func} {T : DomTab} (hf : SSAFacts f T) {u :
                 simp only [dstName, Instr.dst?, Option.map, Option.some.injEq] at hdx hdy; subst hdx hdy
                 obtain ⟨x1, y1, w, hx, hy, hw, hget⟩ := (hinv px _ hix rfl hsx).binop
                 obtain ⟨x2, y2, w', hx', hy', hw', hget'⟩ := (hinv py _ hiy rfl hsy).binop
-                rw [justB_sound hf hinv n a a' ha, hx] at hx'
-                rw [justB_sound hf hinv n b b' hb, hy] at hy'
+                rw [justB_sound hf hinv hty n a a' ha, hx] at hx'
+                rw [justB_sound hf hinv hty n b b' hb, hy] at hy'
                 simp only [Except.ok.injEq] at hx' hy'; subst hx' hy'
                 rw [hw] at hw'; simp only [Except.ok.injEq] at hw'; subst hw'
                 rw [evalOpnd_loc hget, evalOpnd_loc hget']
